@@ -319,6 +319,7 @@ Inductive call_outcome (g : config) (s : sys) (c : client) (q : creq) (k : cont)
                  (Message.AMember, PStr (q_member q)); (Message.ADestination, ostr (q_dest q));
                  (Message.ASignature, ostr (q_sig q))] = Ok tt)
     (Hser : p_serial (proc_of g s c) <= Calls.max_serial)
+    (Hhdr : header_ok q = true)
     (Hnet : s_net s' = s_net s ++ [(Up c, mkW (call_msg q (p_serial (proc_of g s c)) body) None)])
     (Hpend : Calls.st_pending (s_calls s' c) =
              alist_set N.eqb (p_serial (proc_of g s c))
@@ -328,6 +329,8 @@ Inductive call_outcome (g : config) (s : sys) (c : client) (q : creq) (k : cont)
     (Hnew : p_serial (proc_of g s' c) = p_serial (proc_of g s c) + 1)
 | CoNoReply (body : bytes) (x : completion)
     (Hexp : q_expect q = false)
+    (Hser : p_serial (proc_of g s c) <= Calls.max_serial)
+    (Hhdr : header_ok q = true)
     (Hvalid : Message.validate_args false 1
                 [(Message.APath, PStr (q_path q)); (Message.AInterface, ostr (q_iface q));
                  (Message.AMember, PStr (q_member q)); (Message.ADestination, ostr (q_dest q));
@@ -431,11 +434,12 @@ Proof.
       * cbn. rewrite upd_same. exact K1.
       * intros p0 Hp0. cbn. rewrite updn_other by exact Hp0. reflexivity.
       * unfold proc_of. cbn. rewrite updn_same. cbn. change (p_serial (s_procs s (g_proc g c))) with n. rewrite K2. lia.
-    + refine (CoSent g s c q k _ body _ _ _ _ _ _ _ _).
+    + refine (CoSent g s c q k _ body _ _ _ _ _ _ _ _ _).
       * exact EX.
       * exact EB.
       * exact EV.
       * exact EM.
+      * exact EH.
       * reflexivity.
       * cbn. rewrite upd_same. exact K3.
       * reflexivity.
@@ -449,8 +453,10 @@ Proof.
       * cbn. rewrite upd_same. exact K1.
       * intros p0 Hp0. cbn. rewrite updn_other by exact Hp0. reflexivity.
       * unfold proc_of. cbn. rewrite updn_same. cbn. change (p_serial (s_procs s (g_proc g c))) with n. rewrite K2. lia.
-    + refine (CoNoReply g s c q k _ body x' _ _ _ _ _ _).
+    + refine (CoNoReply g s c q k _ body x' _ _ _ _ _ _ _ _).
       * exact EX.
+      * exact EM.
+      * exact EH.
       * exact EV.
       * reflexivity.
       * cbn. rewrite upd_same. exact K3.
